@@ -486,6 +486,47 @@ theorem track2_pack_translated (s : PrimSpec) (hp : s.packer = .track2) (value :
     · simp [track2_Pack_args_spec_Pad_Pad, firstRet, h1, h2]
       rfl
 
+/-! ### `Composite.Pack` / `packByTag` -/
+
+/-- `Composite.Pack` (tagged composites): the prefix is computed from the declared length and the
+length of the packed subfields — the two arguments of the source's `EncodeLength` call -/
+theorem composite_pack_translated (s : CompSpec) (t : TagSpec) (hm : s.mode = .tagged t) (subs : List (Tag × Field))
+    (vals : List (Tag × Value)) (packed : Bytes) (hp : packByTag t subs vals = .ok packed) :
+    ∃ m l : Int, firstRet (composite_Pack_args_f_spec_Pref_EncodeLength s.len packed.length) = some [m, l] ∧
+      Field.pack (.comp s subs) (.comp vals) =
+        match s.pref.encodeLength m.toNat l.toNat with
+        | .ok pre => .ok (pre ++ packed)
+        | .err => .err
+        | .panic => .panic := by
+  refine ⟨_, _, rfl, ?_⟩
+  have h1 : ((s.len : Int)).toNat = s.len := by omega
+  have h2 : ((packed.length : Int)).toNat = packed.length := by omega
+  rw [h1, h2]
+  simp only [Field.pack, hm, hp]
+  rfl
+
+/-- `packByTag`: a subfield of the spec that is not set is skipped (the source's `continue`), and the
+tag of a set one is padded to `Tag.Length` — the argument of the source's `Pad` call — and then encoded -/
+theorem packByTag_skip_translated (t : TagSpec) (tag : Tag) (f : Field) (rest : List (Tag × Field)) (vals : List (Tag × Value))
+    (h : (composite_packByTag_skips t.len true (lookup tag vals).isSome t.enc.isSome (decide (t.pad ≠ .nil))).any id = true) :
+    packByTag t ((tag, f) :: rest) vals = packByTag t rest vals := by
+  have hn : lookup tag vals = Option.none := by
+    cases hl : lookup tag vals with
+    | none => rfl
+    | some v => simp [composite_packByTag_skips, hl] at h
+  simp [packByTag, hn]
+
+theorem packByTag_tag_translated (t : TagSpec) (enc : Enc) (tag : Tag) :
+    ∃ L : Int, one (firstRet (composite_packByTag_args_f_spec_Tag_Pad_Pad t.len true true true true)) = some L ∧
+      encodeTag t enc tag = Enc.encode enc (t.pad.pad tag L.toNat) := by
+  refine ⟨_, rfl, ?_⟩
+  have h1 : ((t.len : Int)).toNat = t.len := by omega
+  rw [h1]
+  rfl
+
+example : (composite_packByTag_skips 2 true false true true).any id = true ∧ (composite_packByTag_skips 2 true true true true).any id = false ∧
+    (composite_packByTag_guards 2 false true true true).any id = true := by decide
+
 /-! ### the running offset of `Message.unpack` -/
 
 /-- an assignment `(keep, delta)` applied to the old value -/
